@@ -30,6 +30,9 @@ WEIGHTS = {'move': 18, 'setexpr': 30, 'emplace': 22, 'erase': 5, 'setalias': 6, 
            'insertcopy_bulk_from': 1}
 
 
+MOVES = dict({k: 0 for k in WEIGHTS}, move=1)
+
+
 def shards(tier, seed):
     return [{'i': i} for i in range(NSH)]
 
@@ -62,6 +65,14 @@ def build(rnd, hist_id):
             uids += [{'idx': k} for k in range(rnd.randint(1, 4))]
         ops.append({'op': 'form.extract', 'f': 'a', 'k': rnd.choice(['basis', 'maxpart']), 'uids': uids})
         plan.append('extract')
+        if rnd.random() < 0.45:
+            # the same schema object is edited between two extractions: mostly pure reorderings, sometimes the same selection again
+            for _ in range(rnd.choice([1, 1, 2, 3])):
+                ops.append(fg.edit_op(rnd, 'a', span=span, other='b', weights=MOVES if rnd.random() < 0.7 else WEIGHTS))
+                plan.append(None)
+            if rnd.random() < 0.5:
+                ops.append(dict(ops[-1 - [i for i, o in enumerate(reversed(ops)) if o['op'] == 'form.extract'][0]]))
+                plan.append('extract')
     return core.case(ops, kind='extract', plan=plan)
 
 
@@ -229,6 +240,8 @@ def judge(res, cs, cr):
     first_source = None
     for op, ev, pl in zip(cs['ops'], cr.events, cs['meta']['plan']):
         if pl != 'extract':
+            if op['op'] == 'form.op' and first_source is not None:
+                first_source = None        # an edit between extractions: the next extraction starts a new comparison window
             continue
         res.count('extractions')
         src = ev['source']
